@@ -96,6 +96,41 @@ func vfC10TwoHoles(c int) {
 	vfAssert("two-holes-order-independent", Area(poly2) == a)
 }
 
+// multi-polygons of one member (with and without a hole), of two members, and inside a collection:
+// the area is the sum over members of outer minus holes, never negative, whatever the windings;
+// the centroid/area pair agrees with Area
+func vfC10Multi_N(tier int) int { return 4 }
+func vfC10Multi_Label(c int) string {
+	return []string{"multipolygon[1 polygon, 1 ring]", "multipolygon[1 polygon with a hole]", "collection[multipolygon[1]]", "multipolygon[2 polygons]"}[c]
+}
+
+func vfC10Multi(c int) {
+	t1 := vfPts("a", 3)
+	p1 := orb.Polygon{vfClosedRing(t1)}
+	want := vfAbs(vfShoelace2(t1))
+	var g orb.Geometry
+	switch c {
+	case 0:
+		g = orb.MultiPolygon{p1}
+	case 1:
+		h := []orb.Point{{1, 1}, {3, 1}, vfP2("h")}
+		p1 = append(p1, vfClosedRing(h))
+		want -= vfAbs(vfShoelace2(h))
+		g = orb.MultiPolygon{p1}
+	case 2:
+		g = orb.Collection{orb.MultiPolygon{p1}}
+	case 3:
+		t2 := []orb.Point{{1, 2}, {5, 3}, vfP2("b")}
+		want += vfAbs(vfShoelace2(t2))
+		g = orb.MultiPolygon{p1, {vfClosedRing(t2)}}
+	}
+	a := Area(g)
+	vfReach("multi")
+	vfAssert("multi-area-sum-of-members", 2*a == want)
+	_, a2 := CentroidArea(g)
+	vfAssert("multi-centroidarea-agrees-with-area", a2 == a)
+}
+
 func vfC10Sums_N(tier int) int     { return 2 + tier }
 func vfC10Sums_Label(c int) string { return []string{"collection-mixed", "collection-lines", "multipolygon"}[c] }
 
